@@ -471,6 +471,84 @@ VEC_EMPTY = ("std::vec::Vec::<T>::new", "std::vec::Vec::<T>::with_capacity")
 VEC_APPEND = ("std::vec::Vec::<T, A>::extend_from_slice",)
 
 
+def byte_len(ctx, se, x):
+    """number of bytes of a byte-array valued term, by its type, else None"""
+    fb = ctx.fb
+    x = strip(x)
+    ty = None
+    if x[0] == "param" and se is not None:
+        ty = se.body.local_ty(x[1])
+    elif x[0] == "field" and isinstance(x[2], int):
+        inner = strip(x[1])
+        ity = se.body.local_ty(inner[1]) if inner[0] == "param" and se is not None else None
+        ity = ity.peel_refs() if ity is not None else None
+        if ity is not None and ity.k == "adt" and ity.path in fb.adts:
+            fs = fb.adt_fields(ity.path) or []
+            if x[2] < len(fs):
+                ty = fb.ty(fs[x[2]]["ty"])
+    elif x[0] == "call" and len(x) > 3 and x[3] and x[3][0] in fb.bodies:
+        b = fb.body(x[3][0])
+        try:
+            term = b.blocks[x[3][1]]["term"]
+            from symex import place_ty
+            ty = place_ty(fb, b, term["dest"]) if term.get("k") == "call" else None
+        except Exception:
+            ty = None
+    elif x[0] == "bytes":
+        return len(x[1])
+    elif x[0] == "repeat" and isinstance(x[2], int):
+        return x[2]
+    elif x[0] == "agg" and x[1] == "array":
+        return len(x[4])
+    if ty is None:
+        return None
+    ty = peel_newtype(fb, ty.peel_refs())
+    if ty is not None and ty.k == "array" and ty.elem is not None and ty.elem.s == "u8":
+        return ty.len
+    return None
+
+
+def _filled_buffer(ctx, se, t, depth):
+    writes = {}
+    base = t
+    while base[0] == "upd" and base[2][0] == "ci" and not (len(base[2]) > 2 and base[2][2]):
+        writes.setdefault(base[2][1], base[3])
+        base = strip(base[1])
+    n = byte_len(ctx, se, base) if base[0] in ("repeat", "agg", "bytes") else None
+    if n is None or any(not (0 <= j < n) for j in writes):
+        return None
+    elems = []
+    for j in range(n):
+        if j in writes:
+            elems.append(strip(writes[j]))
+        elif base[0] == "repeat":
+            elems.append(strip(base[1]))
+        elif base[0] == "agg":
+            elems.append(strip(base[4][j]))
+        else:
+            elems.append(("int", base[1][j]))
+    parts = []
+    j = 0
+    while j < n:
+        e = elems[j]
+        if e[0] == "cindex" and not e[3] and e[2] == 0:
+            X = e[1]
+            m = byte_len(ctx, se, X)
+            if m is not None and j + m <= n and all(elems[j + i] == ("cindex", X, i, False) for i in range(m)):
+                parts.append(bexpr(ctx, se, X, depth + 1))
+                j += m
+                continue
+        if e[0] == "int":
+            k2 = j
+            while k2 < n and elems[k2][0] == "int":
+                k2 += 1
+            parts.append(("const", bytes(elems[i][1] & 0xFF for i in range(j, k2))))
+            j = k2
+            continue
+        return None          # an element that is neither a constant nor part of a whole copied value
+    return ("cat", tuple(parts))
+
+
 def bexpr(ctx, se, t, depth=0):
     """byte-string expression of a (stripped, unwrapped) term"""
     if depth == 0:
@@ -495,6 +573,12 @@ def _bexpr(ctx, se, t, depth=0):
         return ("arr", tuple(bexpr(ctx, se, x, depth + 1) for x in t[4]))
     if k == "field":
         return ("F", bexpr(ctx, se, t[1], depth + 1), t[2])
+    if k == "upd" and t[2][0] == "ci":
+        # a buffer filled element by element (`buf[..32].copy_from_slice(a); buf[32..].copy_from_slice(b)`,
+        # `split_at_mut` halves): the concatenation of what was stored
+        r = _filled_buffer(ctx, se, t, depth)
+        if r is not None:
+            return r
     if k == "after" and is_call(t[1]) and t[1][1] in VEC_APPEND and t[2] == 0:
         # buffer.extend_from_slice(x): the buffer's bytes followed by x's
         base = bexpr(ctx, se, strip(t[3]), depth + 1)
